@@ -143,7 +143,7 @@ def main():
         'global comment lines inside an excerpt are skipped by the recogniser (they are legal anywhere)'])
     run.rule = ('seeded scores x every measure range (<= 16 per score); one recogniser run per excerpt; non-trivial = distinct excerpts that '
                 'do not start at measure 1 or whose score has a split')
-    run.note('explored_classes', ['midscore_sig', 'unequal_sig_kinds', 'start_inside_split', 'nonkern_in_document'])
+    run.note('explored_classes', ['midscore_sig', 'unequal_sig_kinds', 'start_inside_split', 'nonkern_in_document', 'nested_split'])
     run.add_tlc(tlc.run_tlc('MC_SpinePaths', 'MC_SpinePaths_c08.cfg', workers=16, timeout=3000, label='MC_SpinePaths(recogniser invariants)'))
     # the requirement is satisfiable: the REFERENCE excerpt of every core score of the bounded instance is recognised by the same machine
     run.add_tlc(tlc.run_tlc('MC_Excerpt', 'MC_Excerpt_q.cfg' if quick else 'MC_Excerpt_t.cfg', workers=16, timeout=5000,
